@@ -986,7 +986,7 @@ fn compile(job: &Value, config: Option<&Value>) -> Result<(Heap, Sources, Module
   };
   let iv_log: Vec<Value> = samlang_optimization::verif::take_iv_elimination_log()
     .into_iter()
-    .map(|(op, m, c, g, i0)| json!([op, m, c, g, i0]))
+    .map(|(op, m, c, g, i0, inc)| json!([op, m, c, g, i0, inc]))
     .collect();
   Ok((heap, sources, entry, json!(iv_log)))
 }
